@@ -41,7 +41,13 @@ impl EventGen for ReuseElement {
             })?;
         // the instance is an element like any written by hand, and gets the defaults
         // in force where it is instantiated
-        context.apply_defaults(&mut instance_element);
+        // (as `Tag::generate_events()` has it: a container written with an end tag doesn't)
+        if instance_element.is_empty_element()
+            || instance_element.is_graphics_element()
+            || matches!(instance_element.name.as_str(), "box" | "point")
+        {
+            context.apply_defaults(&mut instance_element);
+        }
         // evaluate before splitting compound attributes, as for any other element:
         // an expression such as wh="$s {{$s * 2}}" contains spaces.
         instance_element.eval_attributes(context).inspect_err(|_| {
